@@ -338,6 +338,33 @@ def r4(ctx):
                      "%s:%d" % (b.file, b.line), {"function": b.path, "scrutinee": scr})
         elif scr:
             ctx.ok(rule, "%s#scrutinee" % name, {"function": b.path, "scrutinee": scr})
+        # the transparent wrappers take the tag of the type they wrap directly: `Option(inner) => inner.tag()`.  Going through a
+        # helper that strips more than the wrapper (as_inner_type also looks through SEQUENCE OF / SET OF) gives an optional
+        # list the tag of its elements
+        if fn == "rust::RustType::tag":
+            nw = 0
+            for a in arms:
+                v = a.path[0][1]
+                if len(a.path) != 1 or v not in ("Option", "Default"):
+                    continue
+                rec = [c for c in b.calls() if c.bb in a.blocks and c.name == "tag" and "RustType" in (c.callee or "")]
+                if not rec:
+                    continue
+                nw += 1
+                arg = F.rd(R.positional(O.call_args(rec[0])[0]))
+                alts = [arg]
+                m = re.match(r"^phi\{(.*)\}$", arg)
+                if m:
+                    alts = [x.strip() for x in m.group(1).split(" | ")]
+                okw = all(re.match(r"^\(*\*?\$1 as (Option|Default)\)\.0[.\w]*( as \*const [\w:]+\))?$", x) for x in alts)
+                d = {"function": b.path, "variant": v, "delegates_to_tag_of": arg[:120]}
+                if okw:
+                    ctx.ok(rule, "%s#%s#wrapped-type" % (name, v), d)
+                else:
+                    ctx.fail(rule, "%s#%s#wrapped-type" % (name, v), "the %s arm of %s takes the tag of `%s`, not of the type it wraps directly: "
+                                                                     "an OPTIONAL / DEFAULT SEQUENCE OF is sorted by the tag of its elements"
+                             % (v, name, arg[:80]), rec[0].loc(), d)
+            ctx.floor(rule, nw, "C16.R4.wrapper_arms")
         for variant, tyname in sorted(table.items()):
             cs = got.get(variant)
             key = "%s#%s" % (name, variant)
